@@ -76,7 +76,7 @@ func props() []prop {
 		},
 		{
 			ID: "C13", Level: "fault_enumeration",
-			LevelText:   "Fault enumeration over the wire formats: for valid encodings of every registered type (three forms), version vectors, the handshake and primitive shapes, EVERY truncation, EVERY single-byte corruption (4 substitutions) and EVERY 4-byte window replaced by hostile lengths is fed to the real decoders, plus fixed/PRNG hostile strings and frames up to the 4 MiB limit; on the encode side one value of every unsupported reflect.Kind and malformed messages. Sentinels around each single-threaded call decide: panic, allocation out of proportion (runtime/metrics delta), time, caller's value modified by a failed Read, unsupported value encoded silently; cases run in child processes (8 GiB address-space limit) that journal every case before it starts, so a stack overflow, out-of-memory death or hang is attributed to its input and the enumeration continues after it.",
+			LevelText:   "Fault enumeration over the wire formats: for valid encodings of every registered type (three forms), version vectors, the handshake and primitive shapes (incl. slices whose elements take zero bytes on the wire), EVERY truncation, EVERY single-byte corruption (4 substitutions) and EVERY 4-byte window replaced by hostile lengths is fed to the real decoders, plus fixed/PRNG hostile strings and frames up to the 4 MiB limit; on the encode side one value of every unsupported reflect.Kind and malformed messages. Sentinels around each single-threaded call decide: panic, allocation out of proportion (runtime/metrics delta), time, caller's value modified by a failed Read, unsupported value encoded silently; cases run in child processes (8 GiB address-space limit) that journal every case before it starts, so a stack overflow, out-of-memory death or hang is attributed to its input and the enumeration continues after it.",
 			LevelNote:   "Trusted: the allocation bound 16 MiB + 64 x len(input) is set by the code's own caps (a map pre-sized for the permitted 65 536 entries costs about 3 MiB); allocation attribution is exact because calls are single-threaded. Inputs derive from generated valid encodings, not from a grammar of all byte strings.",
 			Technique:   "fault enumeration (truncation / corruption / hostile length at every offset) with sentinel monitors in journaled child processes",
 			DesignRef:   "DESIGN.md §4 C13",
@@ -220,7 +220,7 @@ func props() []prop {
 		},
 		{
 			ID: "C08", Level: "exploration",
-			LevelText:   "The full supervision matrix is enumerated (shapes x failure sites x panic/Failed x strategies x decisions, Escalate cells expanded through levels 2 and 3 up to the system default; 48 cells in which a sibling of the failing actor was killed and re-created under its name beforehand) and every cell is executed on the real actor system inside a synctest bubble, whose Wait() is an exact quiescence oracle; the observed per-actor traces, events and registry are compared with an executable reference model of which actors are targets and what each directive does to them (decision-maker call count, restart/stop/resume effect, untouched siblings, failing message handled once).",
+			LevelText:   "The full supervision matrix is enumerated (shapes x failure sites x panic/Failed x strategies x decisions, Escalate cells expanded through levels 2 and 3 up to the system default; 48 cells in which a sibling of the failing actor was killed and re-created under its name beforehand; 48 cells in which the restarted incarnation fails again in OnLaunch and the supervisor takes a virtual millisecond over its second decision - until it has decided, the failed incarnation handles nothing) and every cell is executed on the real actor system inside a synctest bubble, whose Wait() is an exact quiescence oracle; the observed per-actor traces, events and registry are compared with an executable reference model of which actors are targets and what each directive does to them (decision-maker call count, restart/stop/resume effect, untouched siblings, failing message handled once).",
 			LevelNote:   "Trusted: the reference model in c08_supmatrix_test.go (vfModel), synctest quiescence. A user-supplied *system* strategy that escalates at the root is outside the stated quantifier and not generated.",
 			Technique:   "enumerated fault matrix on the real system in virtual time, reference-model comparison of recorded traces",
 			DesignRef:   "DESIGN.md §4 C08",
